@@ -107,9 +107,11 @@ func (w *World) translate(fn *ssa.Function, c *Contract) (vc *VC, err error) {
 		t.paramEnv["&"+p.Name()] = Val{T: x, Ty: p.Type()}
 	}
 	t.entry = t.cur.clone()
-	// global invariants of this package (trusted: established by package init)
+	// global invariants of this package (established by the package initialiser:
+	// checked there when `func init` is under contract, assumed everywhere else)
+	t.inInit = fn.Name() == "init" && fn.Synthetic != "" && fn.Parent() == nil
 	for _, gi := range w.CS.GlobInvs {
-		if gi.Pkg != t.pkg {
+		if gi.Pkg != t.pkg || t.inInit {
 			continue
 		}
 		env := t.envAt(nil)
